@@ -1159,7 +1159,15 @@ def match_keys(
     node, obj_var: cfg.Variable, keys_var: cfg.Variable, ctx
 ) -> cfg.Variable | None:
   """Pick values out of a mapping for pattern matching."""
-  keys = _convert_keys(keys_var)
+  try:
+    keys = _convert_keys(keys_var)
+  except abstract_utils.ConversionError:
+    # A key is a value pattern (a dotted name) whose value is not a known
+    # constant, so we cannot tell which entries are picked.
+    key_vars = abstract_utils.get_atomic_python_constant(keys_var, tuple)
+    return ctx.convert.build_tuple(
+        node, [ctx.new_unsolvable(node) for _ in key_vars]
+    )
   if _var_maybe_unknown(obj_var):
     return ctx.convert.build_tuple(
         node, [ctx.new_unsolvable(node) for _ in keys]
